@@ -39,9 +39,15 @@ func harnessC05Panics() {
 	if withPH && !viaSetter {
 		bopts = append(bopts, WithPanicHandler(ph))
 	}
+	if !withPH && variant == 3 {
+		bopts = append(bopts, WithPanicHandler(nil)) // explicitly no panic handler
+	}
 	bus = New(bopts...)
 	if viaSetter {
 		bus.SetPanicHandler(ph)
+	}
+	if !withPH && variant == 2 {
+		bus.SetPanicHandler(nil)
 	}
 	n := vInt(1, N)
 	type hd struct {
